@@ -63,11 +63,14 @@ def applySet (c : Claims) (op : SetOp) : Claims × Outcome Unit :=
         | .err m => (c1, .err m)
         | .panic s => (c1, .panic s)
     | .p2 =>
-      let c1 := match c.sw with | .nilIface => { c with sw := .cont none } | _ => c
-      match replaceVals (l.getD []) with
-      | .ok nv => ({ c1 with sw := .cont nv }, .ok ())
-      | .err m => (c1, .err m)
-      | .panic s => (c1, .panic s)
+      match l with
+      | none => (c, .err eWrongSyntax)   -- the claim is mandatory: a nil list is not a value (fix for D9)
+      | some vals =>
+        let c1 := match c.sw with | .nilIface => { c with sw := .cont none } | _ => c
+        match replaceVals vals with
+        | .ok nv => ({ c1 with sw := .cont nv }, .ok ())
+        | .err m => (c1, .err m)
+        | .panic s => (c1, .panic s)
   | .nonce b =>
     match validatePSAHashType b with
     | .ok _ => ({ c with nonce := some [b] }, .ok ())
